@@ -39,8 +39,44 @@ def nontrivial(ctx):
     return ctx.modified
 
 
+def core_tie(O):
+    """Tie of the semantic theorem's rewriting function (coq/Sem.v rw) to the code: on seeded expressions of the core
+    language, the extracted [sem_tie] abstracts the input expression, applies rw, and compares with the abstraction of what
+    the implementation (and the executable model) produced."""
+    import coregen
+    n = 600 if O.tier == "quick" else 8000
+    cs = []
+    for i in range(n):
+        rng = random.Random("%s/c01core/%d" % (O.seed, i))
+        cfg = vlib.default_config()
+        if rng.random() < 0.3:
+            cfg["localVarPrefix"] = rng.choice(["t", "zz", "abcdef"])
+        cs.append({"id": "c01core-%d" % i, "config": cfg, "calls": [{"code": coregen.program(O.seed, i), "file": "core.js"}], "opts": {}})
+    results = C.run_cases(cs, "model,semtie", "c01core")
+    tally = collections.Counter()
+    breaks = 0
+    for case, r, calls in results:
+        cin, cout, m = calls[0]
+        m = m or {}
+        O.evaluations += 1
+        ti, tm = m.get("semtie"), m.get("model:semtie")
+        tally["implementation:%s" % ti] += 1
+        tally["model:%s" % tm] += 1
+        if ti == "agree" and C.is_modified(cout):
+            O.nontrivial.add(cin["code"])
+        if ti in ("differ", "not-core") or tm in ("differ", "not-core"):
+            breaks += 1
+            if breaks <= 2:
+                O.break_("correspondence Sem.rw (the rewriting function of C01_core_equivalence) vs %s on a core expression: %s" %
+                         ("the implementation" if ti != "agree" else "the executable model", ti if ti != "agree" else tm),
+                         {"case": case, "correspondence": "coq/SemTie.v sem_tie", "implementation": ti, "model": tm,
+                          "content": ((cout.get("result") or {}).get("content") or "")[:600]})
+    O.coverage["core_language_tie"] = dict(tally)
+
+
 def run(O, P):
     E.run(O, P, __import__("checks.C01", fromlist=["x"]), "C01")
+    core_tie(O)
     # execution level
     import execgen
     n = 400 if O.tier == "quick" else 6000
